@@ -10,13 +10,16 @@
    The model is a pure function, so it has no state between calls and a parser
    value cannot change after it was built: whatever the implementation keeps
    between calls, and whatever the caller does to the argument objects later,
-   must not be observable.  The one exception is what the code does today with
-   the synonyms / keywords dicts: _Tokenizer.__init__ stores the caller's own
-   dict (self.synonyms = synonyms or {}), the tokenizer reads it at every
-   match; gen/C01_Consts.v records, from the current source, whether each of
-   the two is stored as it is or copied, and the calls made after the change
-   tokenise with the changed dict exactly when it is stored as it is (the
-   terminals, the skip set and the parse table stay the constructor's).
+   must not be observable.  Up to /repo f245e65 the synonyms / keywords dicts were
+   an exception: _Tokenizer.__init__ stored the caller's own dict (self.synonyms =
+   synonyms or {}) and the tokenizer read it at every match (finding
+   constructor-argument-objects, fixed).  gen/C01_Consts.v records, from the
+   current source, whether each of the two is stored as it is or copied, and the
+   model stays faithful to the source: the calls made after the change tokenise
+   with the changed dict exactly when it is stored as it is (the terminals, the
+   skip set and the parse table stay the constructor's).  That the changed dict
+   is never used is the theorem later_dict_changes_do_not_reach_the_parser
+   (C01/PropsTok.v), which checks only while both constants are false.
    No proofs in this file. *)
 From Coq Require Import ZArith List Bool.
 From AK Require Export Common.Sx Common.Err LLP.Build C01.Spec C01.Run gen.C04_Consts gen.C01_Consts C04.Model.
